@@ -71,7 +71,7 @@ def check(ctx):
     bad1 = d1.run_batch([(n, c) for n, c in schedcheck.corpus_cases("C05") if c and c[0].startswith("universe")])
     rng = ctx.rng("cells")
     batch = []
-    for i in range(400 if quick else 6000):
+    for i in range(400 if quick else 40000):
         batch.append(("cells:%d" % i, gen_cells(rng, rng.choice([8, 30, 120]))))
         if len(batch) == 200:
             bad1 += d1.run_batch(batch); batch = []
@@ -84,7 +84,7 @@ def check(ctx):
     bad2 = d2.run_batch([(n, c) for n, c in schedcheck.corpus_cases("C05") if c and c[0] == "reset"])
     rng = ctx.rng("calls")
     batch = []
-    for i in range(300 if quick else 4000):
+    for i in range(300 if quick else 25000):
         batch.append(("call:%d" % i, schedgen.gen_call_case(rng)))
         if len(batch) == 100:
             bad2 += d2.run_batch(batch); batch = []
